@@ -193,7 +193,7 @@ def view_argparse(table, src, hint):
         else:
             db, ds, da = ("other" if a.help else "none"), False, "no"
         opts.append({"name": n, "type": _TYPES.get(a.type, "other"), "choices": a.choices is not None,
-                     "choices_ok": a.choices is None or tuple(a.choices) == tuple(table["lit"]),
+                     "choices_ok": a.choices is None or tuple(a.choices) in (tuple(table["lit"]), tuple(table["litint"])),
                      "append": isinstance(a, argparse._AppendAction), "required": bool(a.required), "def": d,
                      "dbase": db, "dstop": ds, "dann": da})
     return {"desc": D.a_summary(table, parser.description), "options": opts, "returned_parser": returned_parser,
